@@ -202,6 +202,28 @@ func (w *world) gen() {
 		m.big = s.T.Choose(st, 3) == 0
 		w.msgs = append(w.msgs, m)
 	}
+	if s.T.Choose(st, 8) == 0 {
+		// biased sub-scenario: nothing stands in the way of transmission and
+		// the first message goes to two domains whose transactions end
+		// differently (one temporary, one permanent failure, or one success)
+		w.useSTS, w.useDANE, w.useDNSSEC, w.useLocal, w.dnsTempFail = false, false, false, false, false
+		w.dnsFailD = map[string]bool{}
+		mx := w.mxs[0]
+		mx.down = false
+		p := mx.mx.Plan
+		p.StartTLS, p.TLSFails, p.Cert = true, false, actors.CertValid
+		ok := []actors.Outcome{actors.OK}
+		p.Greeting, p.Mail, p.Data, p.DropMidData = ok, ok, ok, nil
+		for k := range p.Rcpt {
+			p.Rcpt[k] = ok
+		}
+		mix := [][]actors.Outcome{{actors.Temp, actors.Perm}, {actors.Perm, actors.Temp}, {actors.OK, actors.Perm}, {actors.Temp, actors.OK}}[s.T.Choose(st, 4)]
+		p.Final = append(append([]actors.Outcome{}, mix...), actors.OK)
+		m := w.msgs[0]
+		m.rcpts = []string{"alice@dest.example", "erin@тест.example"}
+		m.requireTLS, m.tlsOverride, m.quarantine, m.quarantineLate = false, false, false, false
+		m.atomic = s.T.Choose(st, 2) == 0
+	}
 }
 
 func genO(t *simrt.Tape, num int) actors.Outcome {
